@@ -93,6 +93,12 @@ func GenFunc(prog *Prog, fn *ssa.Function, fc *FuncContract) *VC {
 	}
 	vc.runBody(fr, st0, "true")
 	for _, lc := range fc.Loops {
+		for _, sc := range lc.Steps {
+			if sc.Applied == 0 {
+				vc.errorf("step clause %q in loop %d of %s could be evaluated at no back edge (stale clause)", sc.Text, lc.Ordinal, fn.Name())
+			}
+			sc.Applied, sc.Skipped = 0, 0
+		}
 		for _, mc := range lc.MustCalls {
 			if mc.Hits == 0 {
 				vc.errorf("mustcall %s: no call of %s inside loop %d of %s (stale clause)", mc.Callee, mc.Callee, lc.Ordinal, fn.Name())
